@@ -58,6 +58,9 @@ func (v *Composite) MaxLines() int {
 		if m < 0 {
 			return -1
 		}
+		if min := p.MinLines(); m < min {
+			m = min
+		}
 
 		h += m
 	}
